@@ -3,6 +3,8 @@
 import os, sys, json, tempfile
 sys.path.insert(0, os.path.join(os.path.dirname(os.path.abspath(__file__))))
 from fm import runner, props as P
+import subprocess
+subprocess.run([os.path.join(os.path.dirname(os.path.dirname(os.path.abspath(__file__))), 'check'), 'setup'], capture_output=True)
 out = tempfile.mkdtemp(prefix="fmrc")
 for name in sys.argv[1:]:
     r = runner.run_job({"name": name, "kind": "corpus", "outdir": out, "keep_ops": True})
